@@ -185,7 +185,11 @@ def mk_problem(dims):
             p.add_hyperparameter((int(d[1]), int(d[2])), name)
         elif d[0] == "real":
             p.add_hyperparameter((float(d[1]), float(d[2])), name)
-        else:  # "cat": list of strings -> categorical ; "ord": list of numbers -> ordinal
+        elif d[0] == "catf":  # categorical hyperparameter with numeric (float / mixed) choices
+            import ConfigSpace.hyperparameters as csh
+
+            p.add_hyperparameter(csh.CategoricalHyperparameter(name, choices=list(d[1])))
+        else:  # "cat": list of strings -> categorical ; "ord" / "ordmix": list of numbers -> ordinal (ordmix: ints and floats mixed)
             p.add_hyperparameter(list(d[1]), name)
     return p
 
@@ -354,7 +358,7 @@ def check_cbo(case):
     res = dict(ok=True, kind="oracle", clause="", nontrivial=False,
                sig=dict(strategy=case["strat"], surrogate=case["sur"], ff=case.get("ff", "min")),
                desc=["sur=" + case["sur"], "strat=" + case["strat"], "nw=%d" % case["nw"], "N=%s" % N, "ff=" + case.get("ff", "min"),
-                     "fail=" + case.get("fail", ["none"])[0], "gather=" + case.get("gather", "BATCH")])
+                     "dims=" + "+".join(sorted(set(d[0] for d in case["dims"]))), "fail=" + case.get("fail", ["none"])[0], "gather=" + case.get("gather", "BATCH")])
     rec, cfg, rows, error = run_cbo(case)
     if error is not None:
         kind = error.split(":")[0]
@@ -365,11 +369,23 @@ def check_cbo(case):
     return judge(res, cfg, case["ninit"], [], rec.events, N, extra_rows=rows)
 
 
-def gen_dims(rng, lo=4, hi=64):
+MIXED = [[0.5, 1, 2], [1, 2.5, 4], [0, 0.25, 1, 3], [1, 2, 4.0], [0.1, 1, 10, 100], [2, 3.5]]
+FLOATCAT = [[0.5, 1.0, 2.0], [0.1, 0.2, 0.4, 0.8], [1.0, 2.0], [0.5, 1, 2]]
+
+
+def gen_dims(rng, lo=4, hi=64, mixed=False):
     while True:
         dims = []
-        for _ in range(rng.randint(1, 3)):
+        for j in range(rng.randint(1, 3)):
             k = rng.choice(["int", "int", "cat", "cat", "ord"])
+            if mixed:
+                k = rng.choice(["ordmix", "ordmix", "catf"]) if j == 0 else rng.choice(["int", "int", "cat", "ordmix", "catf"])
+            if k == "ordmix":
+                dims.append(["ordmix", list(rng.choice(MIXED))])
+                continue
+            if k == "catf":
+                dims.append(["catf", list(rng.choice(FLOATCAT))])
+                continue
             if k == "int":
                 a = rng.randint(-2, 3)
                 dims.append(["int", a, a + rng.randint(1, 7)])
@@ -377,6 +393,8 @@ def gen_dims(rng, lo=4, hi=64):
                 dims.append(["cat", ["a", "b", "c", "d", "e", "f", "g", "h"][: rng.randint(2, 8)]])
             else:
                 dims.append(["ord", sorted(rng.sample([1, 2, 3, 4, 5, 8, 16, 32], rng.randint(2, 5)))])
+        if mixed:
+            rng.shuffle(dims)
         n = space_size(dims)
         if lo <= n <= hi:
             return dims
@@ -400,14 +418,17 @@ def gen_cbo(count, surrogates, big=False, cont=False):
     def g(rng, tier):
         n = count * (3 if tier == "search" else 1)
         for i in range(n):
-            dims = gen_cont_dims(rng) if cont else gen_dims(rng, 4, 24 if (tier == "search" or i % 3) and not big else 64)
+            mixed = (not cont) and i % 3 == 1
+            dims = gen_cont_dims(rng) if cont else gen_dims(rng, 4, 24 if (tier == "search" or i % 3) and not big else 64, mixed=mixed)
             N = space_size(dims) or rng.randint(12, 40)
             sur = surrogates[i % len(surrogates)]
+            if mixed and sur == "DUMMY":
+                sur = "ET"  # the model side (inverse_transform) is where the numeric types change
             strat = rng.choice(["cl_min", "cl_mean", "cl_max", "qUCB", "qUCBd", "qUCB", "qUCBd"])
             if sur == "GP" and strat == "qUCBd":
                 strat = "qUCB"
             nw = rng.choice([1, 1, 2, 3, 4, 5, 6, 8])
-            ninit = rng.randint(1, max(1, min(10, N // 2)))
+            ninit = rng.randint(1, max(1, min(10, N // 2 if not mixed else N // 3)))
             fm = rng.choice(["none", "none", "mod", "after", "window", "mod"])
             if fm == "mod":
                 m = rng.randint(2, 5)
@@ -563,7 +584,7 @@ def check_opt(case):
 def gen_opt(count):
     def g(rng, tier):
         for i in range(count * (3 if tier == "search" else 1)):
-            dims = gen_dims(rng, 4, 30)
+            dims = gen_dims(rng, 4, 30, mixed=(i % 4 == 1))
             N = space_size(dims)
             ops = []
             for _ in range(rng.randint(3, 14)):
@@ -604,21 +625,35 @@ def check_filter(case):
     dims = case["dims"]
     vals = [dim_values(d) if d[0] != "cat" else [str(v) for v in dim_values(d)] for d in dims]
 
-    def point(p):
-        return [vals[i][j % len(vals[i])] for i, j in enumerate(p)]
+    import numpy as np
 
+    # the same value with another type: python int / float, numpy scalars (what inverse_transform returns), bool / numpy bool
+    def styled(v, k):
+        if isinstance(v, bool):
+            return [v, np.bool_(v)][k % 2]
+        if isinstance(v, (int, float)):
+            if float(v) == int(v):
+                return [v, int(v), float(v), np.int64(int(v)), np.float64(v), np.int32(int(v))][k % 6]
+            return [v, float(v), np.float64(v)][k % 3]
+        return [v, np.str_(v)][k % 2]
+
+    def point(p, st):
+        return [styled(vals[i][j % len(vals[i])], st[i] if st else 0) for i, j in enumerate(p)]
+
+    sty_h, sty_s = case.get("styles_sampled"), case.get("styles_samples")
     with warnings.catch_warnings():
         warnings.simplefilter("ignore")
         opt = Optimizer(mk_dimensions(dims), base_estimator=None, n_initial_points=1, random_state=0)
-        opt.sampled = [point(p) for p in case["sampled"]]
-        samples = [point(p) for p in case["samples"]]
+        opt.sampled = [point(p, sty_h[i] if sty_h else None) for i, p in enumerate(case["sampled"])]
+        samples = [point(p, sty_s[i] if sty_s else None) for i, p in enumerate(case["samples"])]
         got = opt._filter_duplicated([list(p) for p in samples])
     rec = Recorder()
     s, c, g = rec.tokens(opt.sampled), rec.tokens(samples), rec.tokens(got)
     want = model().call(F_FILTER, [s, c])
     new = bool(model().call(F_HASNEW, [s, c]))
     res = dict(ok=True, kind="corr", clause="", nontrivial=new and len(want) < len(c), sig={},
-               desc=["fallback" if not new else "filtered", "sampled=%d" % min(len(s), 10), "dup_in_sample" if len(set(c)) < len(c) else "distinct_sample"])
+               desc=["fallback" if not new else "filtered", "sampled=%d" % min(len(s), 10), "dup_in_sample" if len(set(c)) < len(c) else "distinct_sample",
+                     "typed" if sty_h or sty_s else "plain", "dims=" + "+".join(sorted(set(d[0] for d in dims)))])
     if g != want:
         return dict(res, ok=False, clause="filter_dup", detail=dict(sampled=s, samples=c, got=g, want=want))
     return res
@@ -628,21 +663,36 @@ def gen_filter(count):
     def g(rng, tier):
         yield dict(dims=[["int", 0, 1]], sampled=[[0], [1]], samples=[[1], [0], [1]])
         yield dict(dims=[["int", 0, 3]], sampled=[], samples=[[1], [1], [2]])
-        for _ in range(count * (3 if tier == "search" else 1)):
-            dims = gen_dims(rng, 2, 30)
+        # the history holds 1.0 (model side), the sample holds 1 (sampler side): the same configuration
+        yield dict(dims=[["ordmix", [0.5, 1, 2]]], sampled=[[1]], samples=[[1], [0], [1]], styles_sampled=[[2]], styles_samples=[[0], [0], [1]])
+        yield dict(dims=[["int", 0, 3], ["catf", [0.5, 1.0, 2.0]]], sampled=[[1, 1], [2, 2]], samples=[[1, 1], [2, 2], [3, 0]],
+                   styles_sampled=[[3, 1], [4, 4]], styles_samples=[[0, 0], [1, 3], [2, 0]])
+        yield dict(dims=[["catf", [True, False]], ["int", 0, 1]], sampled=[[0, 1]], samples=[[0, 1], [1, 1]], styles_sampled=[[1, 2]], styles_samples=[[0, 0], [0, 0]])
+        for i in range(count * (3 if tier == "search" else 1)):
+            dims = gen_dims(rng, 2, 30, mixed=(i % 3 == 1))
+            if i % 7 == 3:
+                dims = dims[:2] + [["catf", [True, False]]]
             N = space_size(dims)
             ns = rng.choice([0, 1, 2, N // 2, N, 2 * N])
-            yield dict(dims=dims, sampled=[[rng.randrange(8) for _ in dims] for _ in range(ns)],
-                       samples=[[rng.randrange(8) for _ in dims] for _ in range(rng.randint(1, 3 * N))])
+            c = dict(dims=dims, sampled=[[rng.randrange(8) for _ in dims] for _ in range(ns)],
+                     samples=[[rng.randrange(8) for _ in dims] for _ in range(rng.randint(1, 3 * N))])
+            if i % 2:
+                c["styles_sampled"] = [[rng.randrange(6) for _ in dims] for _ in c["sampled"]]
+                c["styles_samples"] = [[rng.randrange(6) for _ in dims] for _ in c["samples"]]
+            yield c
     return g
 
 
 def shrink_filter(case):
     for key in ("samples", "sampled"):
         l = case[key]
+        st = case.get("styles_" + key)
         for i in range(len(l)):
             if key == "sampled" or len(l) > 1:
-                yield dict(case, **{key: l[:i] + l[i + 1:]})
+                c = dict(case, **{key: l[:i] + l[i + 1:]})
+                if st:
+                    c["styles_" + key] = st[:i] + st[i + 1:]
+                yield c
 
 
 def streams(tier):
